@@ -7,7 +7,7 @@ from ..prng import Rng
 from ..seams import CLOCK, F, T, reset_world, LIB_ERRORS
 from ..core import real
 from ..oracle import (ACCEPT, REJECT, EITHER, slack3, slack_tripped_int, validsig,
-                      ed_verify, pubkey_of_seed)
+                      ed_verify, pubkey_of_seed, as_key_arg, PREFIXES)
 
 PID = 'C14'
 ISOLATE = True      # one forked process per run: nothing a run does to process-global
@@ -118,6 +118,8 @@ def gen_step(rng, cell, clocks, vname, at_us, thr, fault_free):
     step = {'at_us': at_us, 'validator': vname, 'lock': lock, 'witness': lock,
             'root': root, 'via': rng.choice(['global', 'global', 'additional']),
             'gthr': rng.choice([60, 0, 1, 10 ** 6]), 'default_t': rng.chance(1, 8),
+            'keys': rng.choice(['bytes', 'bytes', 'object']), 'prefix': rng.choice(PREFIXES),
+            'cert_as': rng.choice(['bytes', 'object']),
             't': t, 'thr': thr, 'chain': chain, 'signer': '%s%d' % (pre, ln),
             'allowed': rng.choice(['00', '00', '01', '03', '80', 'c1']), 'flag': '00',
             'sigfields': {'sigfield%d' % k: rng.bytes(rng.choice([1, 16, 64])).hex()
@@ -322,15 +324,20 @@ def execute(plan, run):
         root_pk = keys[root][1]
         packed = [issue(c['issuer'], c['subject'], c['begin'], c['end'], c['can'])[1]
                   for c in step['chain']]
-        signer = keys[step['signer']][0]
+        signer = as_key_arg('prv', keys[step['signer']][0], step.get('keys', 'bytes'))
+        if step.get('cert_as') == 'object':
+            # the witness builders take certificates as bytes or as Certificate objects
+            packed_arg = [real('Certificate.unpack', T.Certificate.unpack, x) for x in packed]
+        else:
+            packed_arg = packed
         CLOCK.latency_us = 0
         run.cur_step = i
         if step['witness'] == 'single':
             w = real('make_delegate_key_witness', T.make_delegate_key_witness,
-                     signer, packed[-1], sf, step['flag'])
+                     signer, packed_arg[-1], sf, step['flag'], step.get('prefix', ''))
         else:
             w = real('make_delegate_key_chain_witness', T.make_delegate_key_chain_witness,
-                     signer, list(reversed(packed)), sf, step['flag'])
+                     signer, list(reversed(packed_arg)), sf, step['flag'], step.get('prefix', ''))
         _, stk, _ = real('run_script(witness)', F.run_script, w.bytes)
         items = stk.list()
         # structural expectation on the builder's own output
@@ -349,7 +356,8 @@ def execute(plan, run):
             src = '\n'.join('push x' + it.hex() for it in items)
             w = T.Script.from_src(src)
         lock = real('make_delegate_key_lock', T.make_delegate_key_lock if step['lock'] == 'single'
-                    else T.make_delegate_key_chain_lock, root_pk, step['allowed'])
+                    else T.make_delegate_key_chain_lock,
+                    as_key_arg('pub', root_pk, step.get('keys', 'bytes')), step['allowed'])
         cache_in = dict(sf) if step.get('default_t') else {**sf, 'timestamp': step['t']}
         CLOCK.latency_us = kn['latency_us']
         CLOCK.begin_call(step['validator'], step['faults'])
